@@ -579,6 +579,7 @@ package template
 //@   ensures agree: a.state != stateError && b.state != stateError && r.state != stateError ==> nudgest(a.state) == nudgest(b.state) && nudgedl(a.state, a.delim) == nudgedl(b.state, b.delim) && seqeq(a.scriptType, b.scriptType) && seqeq(a.linkRel, b.linkRel) && a.err == b.err && (seqeq(a.element.name, b.element.name) || seqeq(a.attr.name, b.attr.name))
 //@   ensures state: a.state != stateError && b.state != stateError && r.state != stateError ==> (r.state == a.state && r.delim == a.delim) || (r.state == nudgest(a.state) && r.delim == nudgedl(a.state, a.delim))
 //@   ensures ambiguous: a.state != stateError && b.state != stateError && r.state != stateError && !seqeq(a.attr.value, b.attr.value) ==> r.attr.ambiguousValue
+//@   ensures carried: a.state != stateError && b.state != stateError && r.state != stateError && (a.attr.ambiguousValue || b.attr.ambiguousValue) ==> r.attr.ambiguousValue
 //@   ensures errcarries: r.state == stateError ==> !isnil(r.err) || a.state == stateError || b.state == stateError
 
 //@ func isComment(s state) (r bool)
